@@ -26,14 +26,14 @@ def _unwrap(r):
     return ("other", repr(r))
 
 
-def resolve(bindings, package, ref, runner, annotate, vals):
+def resolve(bindings, package, ref, runner, annotate, vals, wrap=None):
     from celpy import celtypes as ct
     ann = {n: (ct.IntType if s[0] == "int" else ct.MapType) for n, s in bindings.items()} if annotate else None
-    prog = make_program(ref, runner, package=package, annotations=ann)
+    prog = make_program(wrap.format(ref=ref) if wrap else ref, runner, package=package, annotations=ann)
     b = {n: _build(s, vals) for n, s in bindings.items()}
     kd, r = evaluate_outcome(lambda: prog.evaluate(b))
     exp = M.resolve(bindings, package, ref)
-    where = f"ref `{ref}` with bindings {sorted(bindings)} package={package!r} under {runner}"
+    where = f"ref `{ref}`" + (f" inside `{wrap}`" if wrap else "") + f" with bindings {sorted(bindings)} package={package!r} under {runner}"
     if kd == "escape":
         return False, f"{where}: {type(r).__name__} escaped: {r}"
     if exp[0] == "unspecified":
@@ -58,6 +58,16 @@ def macro(i, runner, vals, pkg=None):
 
 def declared(runner, vals):
     from celpy import celtypes as ct
+
     prog = make_program("b1", runner, annotations={"b1": ct.IntType})
     kd, r = evaluate_outcome(lambda: prog.evaluate({"b1": ct.IntType(vals["va"])}))
-    return kd == "value" and isinstance(r, int) and int(r) == vals["va"], f"declared b1 bound to {vals['va']}: {kd} {r!r}"
+    if not (kd == "value" and isinstance(r, int) and int(r) == vals["va"]):
+        return False, f"declared b1 bound to {vals['va']}: {kd} {r!r}"
+    for src in M.DECL_SRCS:
+        for val in (ct.IntType(vals["va"]), None):
+            prog = make_program(src, runner, annotations={"b1": ct.IntType, "b2": ct.StringType})
+            kd, r = evaluate_outcome(lambda: prog.evaluate({"b1": val}))
+            ok = kd == "value" and ((r is None) if val is None else (isinstance(r, int) and int(r) == vals["va"]))
+            if not ok:
+                return False, f"`{src}` under {runner} with declared b1 bound to {val!r}: {kd} {r!r:.100}"
+    return True, "ok"
